@@ -239,7 +239,7 @@ macro_rules! prime_field_ops {
 
 prime_field_ops!(fp31, Fp31, u8, mk31, rd31, P31, 8, red31, 8, cadical);
 prime_field_ops!(fp32, Fp32BitPrime, u32, mk32, rd32, P32, 32, red32, 32, cadical);
-prime_field_ops!(fp61, Fp61BitPrime, u64, mk61, rd61, P61, 61, red61, 20, z3);
+prime_field_ops!(fp61, Fp61BitPrime, u64, mk61, rd61, P61, 61, red61, 61, z3);
 
 // ---------------------------------------------------------------------------------
 // truncate_from / from_random_u128 over the full u128 domain.
@@ -305,6 +305,26 @@ pub(crate) mod truncate {
             kani::cover!(true);
         }
     }
+
+    macro_rules! fp61_mul_wide {
+        ($name:ident, $bbits:expr) => {
+            harness! {
+                #[kani::solver(z3)]
+                fn $name() {
+                    // second factor below 2^$bbits, first factor full width; z3 back end
+                    let a: u64 = kani::any();
+                    let b: u64 = kani::any();
+                    kani::assume(u128::from(a) < P61 && u128::from(b) < P61 && u128::from(b) < (1u128 << $bbits));
+                    let r = u128::from(rd61(mk61(a) * mk61(b)));
+                    assert!(r == red61(u128::from(a) * u128::from(b)));
+                    kani::cover!(true);
+                }
+            }
+        };
+    }
+    fp61_mul_wide!(q08_fp61_mul_ref_b32, 32);
+    fp61_mul_wide!(t08_fp61_mul_ref_b48, 48);
+    fp61_mul_wide!(t08_fp61_mul_ref_full, 61);
 
     harness! {
         fn q08_fp61_const_truncate_from_bit() {
